@@ -1277,3 +1277,71 @@ def run_miri(wd, inputs):
 
 
 CHECKS["C08"] = c08
+
+
+# -------------------------------------------------------------------- replay
+
+PARSE_FLAGS = {"C01": {"VALUE", "MODEL"}, "C02": {"VALUE", "MODEL"}, "C03": {"VALUE", "EXPECT"}, "C04": {"NOPANIC"},
+               "C05": {"AGREE", "VALUE"}, "C06": {"VALUE", "MODEL"}, "C07": {"VALUE", "MODEL"}, "C15": {"ALLOCS", "NOPANIC"}}
+
+
+def replay(prop, path):
+    """bin/check <id> --replay <file>: re-run exactly the recorded case"""
+    rep = json.load(open(path))
+    os.environ["VERIF_NO_EVIDENCE"] = "1"
+    if prop in PARSE_FLAGS and "record" in rep:
+        rec = rep["record"]
+        inp = {"id": 1, "fmt": rec["fmt"], "int": rec["int"], "frac": rec["frac"], "exp": rec["exp"], "tag": "replay"}
+        if "expect" in rec:
+            inp["expect"], inp["render"] = rec["expect"], rec.get("render", "")
+        cfgs = sorted({o["cfg"].split("@")[0] for o in rec["outs"]})
+        profiles = tuple(sorted({(o["cfg"].split("@")[1] if "@" in o["cfg"] else "release") for o in rec["outs"]}, reverse=True))
+        parsecheck.parse_property_check(prop, "quick", [inp], cfgs, PARSE_FLAGS[prop], rule="replay of " + path,
+                                        level_note="replay", profiles=profiles or ("release",))
+    elif prop == "C11" and "record" in rep:
+        wd = core.workdir("C11-replay")
+        rec = rep["record"]
+        inputs = [{"id": 1, "fmt": rec["fmt"], "w": rec["w"], "q": rec["q"], "trunc": rec["trunc"]}]
+        cfgs = [o["cfg"] for o in rec["outs"]]
+        outs = run_records(wd, "run_moderate", inputs, cfgs)
+        m = dict(inputs[0])
+        m["outs"] = [dict(outs[c][0]["res"], cfg=c) for c in cfgs]
+        verdicts, _ = tlc_records(wd, "CF_Moderate", [m], "C11-replay")
+        v = verdicts[1]
+        print(json.dumps({"input": rep.get("input"), "verdict": v}, indent=1))
+        core.finish("C11", [path] if v["verdict"] == "impl_violates" else [], [])
+    elif prop in ("C09", "C10") and "record" in rep:
+        wd = core.workdir(prop + "-replay")
+        g = rep["record"]
+        cfgs = [o["cfg"] for o in g["members"][0]["outs"]]
+        flat = [{"id": k + 1, "fmt": g["fmt"], "int": m["int"], "frac": m["frac"], "exp": m["exp"]} for k, m in enumerate(g["members"])]
+        outs = parsecheck.run_impl(wd, flat, cfgs)
+        rec = {"id": 1, "kind": g["kind"], "fmt": g["fmt"], "members": [
+            {"int": f["int"], "frac": f["frac"], "exp": f["exp"],
+             "outs": [{"cfg": c, "kind": outs[c][k]["out"]["kind"], "bits": outs[c][k]["out"]["bits"]} for c in cfgs]} for k, f in enumerate(flat)]}
+        verdicts, _ = tlc_records(wd, "CF_Order", [rec], prop + "-replay")
+        print(json.dumps(verdicts[1], indent=1))
+        core.finish(prop, [path] if verdicts[1]["verdict"] == "impl_violates" else [], [])
+    elif prop == "C19" and "bytes" in rep:
+        wd = core.workdir("C19-replay")
+        outs = run_records(wd, "run_frontend", [{"id": 1, "bytes": rep["bytes"]}], ["std"], name="frontend")["std"]
+        verdicts, _ = tlc_records(wd, "CF_FrontEnd", [{"id": 1, "bytes": rep["bytes"], "outs": outs[0]["outs"]}], "C19-replay")
+        print(json.dumps(verdicts[1], indent=1))
+        core.finish("C19", [path] if verdicts[1]["verdict"] == "impl_violates" else [], [])
+    elif prop == "C12" and "record" in rep:
+        wd = core.workdir("C12-replay")
+        r = rep["record"]
+        cfg = rep.get("config", "std")
+        variant = ("heap" if "alloc" in cfg else "stack") + ("compact" if "compact" in cfg else "")
+        outs = run_records(wd, "run_bigint", [{"id": 1, "op": r["op"], "x": r["x"], "y": r["y"], "n": r["n"]}], [cfg], name="bigint")[cfg]
+        p = os.path.join(wd, "rec.ndjson")
+        core.write_ndjson(p, outs)
+        res = core.tlc(os.path.join(core.SPEC, "cf", "CF_Bigint.tla"), os.path.join(core.SPEC, "cf", "CF_Bigint_%s.cfg" % variant),
+                       "C12-replay", env={"VERIF_RECORDS": p}, coverage=False)
+        v = [x for x in res.prints if isinstance(x, dict)][0]
+        print(json.dumps(v, indent=1))
+        core.finish("C12", [path] if v["verdict"] == "impl_violates" else [], [])
+    else:
+        core.log("replay of %s violations re-runs the quick check (the violation is a history / process-level event)" % prop)
+        os.environ["VERIF_NO_EVIDENCE"] = "0"
+        CHECKS[prop]("quick")
